@@ -125,6 +125,28 @@ pub fn isolated<T: Send + 'static>(seed: u64, f: impl FnOnce() -> T + Send + 'st
     }
 }
 
+/// As `isolated`, for closures that borrow from the caller (scoped thread).
+pub fn isolated_scoped<T: Send>(seed: u64, f: impl FnOnce() -> T + Send) -> Result<T, String> {
+    arm();
+    entropy::reset(seed);
+    vclock::reset();
+    std::thread::scope(|s| {
+        let h = std::thread::Builder::new()
+            .stack_size(16 << 20)
+            .spawn_scoped(s, move || {
+                let r = std::panic::catch_unwind(std::panic::AssertUnwindSafe(f));
+                // carry the panic location across the thread boundary
+                (r, last_panic_loc())
+            })
+            .expect("spawn");
+        match h.join() {
+            Ok((Ok(v), _)) => Ok(v),
+            Ok((Err(p), loc)) => Err(format!("{} at {}", panic_msg(&p), loc.unwrap_or_default())),
+            Err(p) => Err(panic_msg(&p)),
+        }
+    })
+}
+
 pub fn panic_msg(p: &Box<dyn std::any::Any + Send>) -> String {
     if let Some(s) = p.downcast_ref::<&str>() {
         s.to_string()
